@@ -9,7 +9,7 @@ COMMON = [
 
 LFO_RULE = ("exhaustive sweep of all 2^24 phase-counter values (increment 1, across the wrap), whole-cycle sweeps at 9 larger increments, "
             "directed set_phase/reset/set_frequency scenarios at 28 sample rates, closed-loop landings (the frequency is set from the counter read back so that the next tick lands exactly on 0, 2^24-1, the half cycle, table-cell boundaries and their neighbours), "
-            "seeded random histories incl. frequency nudges of a few ulps, re-quantised frequencies and (C10/C12 only) frequencies above the sample rate; every tick reads all 5 waveshapes; C12 bounds each sine step by the smaller of the observed and the commanded phase step; C10 also runs observation twins (getters read after every call on one instance, only at sparse checkpoints on the other: bit-identical there). "
+            "seeded random histories incl. frequency nudges of a few ulps, re-quantised frequencies and (C10/C12 only) frequencies above the sample rate; every tick reads all 5 waveshapes; C12 bounds each sine step by the smaller of the observed and the commanded phase step (by the commanded one alone when the counter cannot be read back); C10 also runs observation twins (getters read after every call on one instance, only at sparse checkpoints on the other: bit-identical there). "
             "distinct_nontrivial = distinct (sine-table cell, increment magnitude class) pairs observed")
 
 META = {
@@ -29,14 +29,14 @@ META.update({
     "C01": {"rule": ADSR_RULE, "assumptions": COMMON + ["phase and counter position come from the read-only hooks Adsr::verif_state()/verif_phase_bits()", "the documented RC curves are the generator's formulas of non_rust_utils/lookup_table_gen.py evaluated in f64", "monotonicity allows 4 ulp (4.8e-7) of f32 rounding; the largest dip observed is reported under monitored_maxima"]},
     "C02": {"rule": ADSR_RULE, "assumptions": COMMON + ["phase read through Adsr::verif_state()", "per-tick progress x=1/(T*fs) is integrated as an interval [x(1-2^-22)-2^-24, x(1+2^-22)]: early = ended with upper bound < 1, late = not ended with lower bound >= 1", "all four inputs are set before the first gate event (power-on parameter values are not part of the property)"]},
     "C03": {"rule": ADSR_RULE, "assumptions": COMMON + ["slope bound 1.005*S*c*x*(1+2^-22)+|ds|+4ulp with S=1.81062 (attack), 4.07463 (decay/release), c the span of the segment, x the fraction of the phase one tick covers"]},
-    "C04": {"rule": MIDI_RULE + "; workload: note-on / note-off / velocity-0 / All Notes Off on the listened channel, pools of 1..128 notes, explicit and running status, priority and retrigger switched at random, at most 32 outstanding note-ons; a key held under melodies of 250-70000 notes; the 32-entry buffer filled with distinct / identical keys and re-struck; pattern-repeat storms of 2^8 ... 2^20 (thorough: 2^32) note pairs, also with a key struck just before the count is reached", "assumptions": COMMON + ["histories are cut before a 33rd outstanding note-on (the property is stated up to 32)", "CC 123 is All Notes Off for any value byte"]},
+    "C04": {"rule": MIDI_RULE + "; workload: note-on / note-off / velocity-0 / All Notes Off on the listened channel, pools of 1..128 notes, explicit and running status, priority and retrigger switched at random, at most 32 outstanding note-ons; a key held under melodies of 250-70000 notes; the 32-entry buffer filled with distinct / identical keys and re-struck; pattern-repeat storms of 2^8 ... 2^20 (thorough: 2^32) note pairs (also of incomplete, foreign-channel and real-time-only messages), also with a key struck just before the count is reached, every storm followed by two fresh keys of which the newer is released, and 2^8-d / 2^16-d pairs (d = 0..9) followed by a rolled chord released newest-first", "assumptions": COMMON + ["histories are cut before a 33rd outstanding note-on (the property is stated up to 32)", "CC 123 is All Notes Off for any value byte"]},
     "C05": {"rule": MIDI_RULE + "; workload: the C04 streams with edge polls interleaved (sparse at several rates, and strict = both edges after every message), note floods beyond 32 outstanding note-ons (observed-gate mode), poll-free bursts of 254-513 messages and pattern-repeat storms of 2^8 ... 2^20 (thorough: 2^32) messages between two polls", "assumptions": COMMON + ["edge getters are polled on implementation and reference at the same instant"]},
     "C06": {"rule": MIDI_RULE + "; workload: 24 well-formed base streams x every split point x 16 channels with real-time bytes inserted, random insertions, unstructured byte streams in four styles (uniform, status-heavy, data-heavy running status, own-channel with system bytes), universal SysEx messages with arbitrary parameter bytes and device ids, RPN/NRPN/data-entry sequences, channel-mode controllers 120-127 followed by foreign-channel traffic, pattern-repeat storms", "assumptions": COMMON + ["pitch-bend scaling is taken from a table read from a fresh receiver (the scaling itself is judged by C18); framing decides which bytes form the value", "histories are cut before a 33rd outstanding note-on", "0xF9/0xFD are treated as real-time (transparent), 0xF4/0xF5 as system common (cancel running status)"]},
-    "C18": {"rule": MIDI_RULE + "; workload: 16 channels x 128 controllers x 128 values (explicit + running status, listened + foreign channel, foreign-channel traffic after every controller number), all 16384 pitch-bend values ascending/descending, pitch-bend values in other orders on fresh receivers (MSB-only wheels, constant LSB, repeats, alternating extremes, random order), mode setters (priority / retrigger, each really changing the mode) dropped between arbitrary bytes, scaling tables, controllers interleaved with note traffic, RPN/NRPN/data-entry sequences, pattern-repeat storms", "assumptions": COMMON + ["power-on defaults are read from a freshly constructed receiver at run time"]},
+    "C18": {"rule": MIDI_RULE + "; workload: 16 channels x 128 controllers x 128 values (explicit + running status, listened + foreign channel, foreign-channel traffic after every controller number), all 16384 pitch-bend values ascending/descending, pitch-bend values in other orders on fresh receivers (MSB-only wheels, constant LSB, repeats, alternating extremes, random order), mode setters (priority / retrigger, each really changing the mode) dropped between arbitrary bytes, scaling tables, controllers interleaved with note traffic, RPN/NRPN/data-entry sequences, universal SysEx messages (master volume, GM on/off, ...) followed by a controller reset, pattern-repeat storms", "assumptions": COMMON + ["power-on defaults are read from a freshly constructed receiver at run time"]},
 })
 
 QUANT_RULE = ("allow/forbid/convert histories on the real quantizer with a shadow scale: directed convert-forbid-convert of the same input in every octave and pitch class, slow ramps, "
-              "sub-hysteresis noise around every chromatic boundary, jumps, random scale edits (incl. forbid-everything, duplicated note arguments, argument lists of 13-50 entries in which a note is named only late, forbid/allow of the held pitch class back to back), exact repeats of earlier inputs, inputs in and around [0,10] V incl. NaN/inf, 7*10^4-conversion runs and edit storms of 2^8 ... 2^20 (thorough: 2^31, 2^32) edit calls between two conversions; "
+              "sub-hysteresis noise around every chromatic boundary, jumps, random scale edits (incl. forbid-everything, duplicated note arguments, argument lists of 13-50 entries in which a note is named only late, forbid/allow of the held pitch class back to back), exact repeats of earlier inputs and inputs a few ulps away from them, inputs in and around [0,10] V incl. NaN/inf, 7*10^4-conversion runs and edit storms of 2^8 ... 2^20 (thorough: 2^31, 2^32) edit calls between two conversions; "
               "distinct_nontrivial = distinct (octave, path {kept by window, outside window, cached note forbidden, no history}, pitch class, scale-size bucket) classes observed")
 GLIDE_RULE = ("set_time/process histories on the real processor: clean steps over the (fs,t) plane (both signs, offsets), dead-band sequences (drift chains, flapping, jumps, around the band edge) with the pole estimated from the outputs after every call, "
               "and mixed piecewise-constant / noise inputs at signal scales from 1e-30 to 3e38 with set_time changes at arbitrary points incl. switches to <= 4/fs in mid-glide, A-B-A' schedules without a sample in between, glides frozen by feeding the output back, full-scale swings, (C13, C17) holds at +-f32::MAX and 1 ulp, 8 ulps, 0.08 %, 3 % below it over 4 rates x 6 times followed by ordinary levels (known finding F11: the state overflows there), 7*10^4 set_time calls; distinct_nontrivial = distinct (decade of t*fs, changed-mid-glide?, specified region?) and (plane cell) classes observed")
